@@ -467,7 +467,7 @@ class NDNApp:
 
     async def _make_rib_command(self, command: str, name: FormalName):
         # NFD only accepts strictly increasing timestamps in the commands signed by one key
-        for _ in range(10):
+        for _ in range(1000):  # (a coarse wall clock may take 16 ms and more to show another reading)
             if timestamp() > self._last_command_timestamp:
                 break
             await aio.sleep(0.001)
